@@ -715,7 +715,9 @@ static void runHash(Ctx& c, Rng& rng, const std::string& suite, const std::strin
 }
 
 // ---- directed block: hash traits whose growth answers are illegal (HashSet.h:1003 `MOMO_CHECK(shift > 0)` in
-// pvGetNewLogBucketCount, :1135 `MOMO_CHECK(newCapacity > mCount)` in pvAddGrow).  The traits answer correctly until a run-time
+// pvGetNewLogBucketCount, :1140 `MOMO_CHECK(nextCapacity > newCapacity)` inside the sizing loop of pvAddGrow, which raises the bucket
+// count while `newCapacity <= mCount`: a CalcCapacity that is capped at a value <= count does not grow with the bucket count, so the
+// second evaluation equals the first and the check fails).  The traits answer correctly until a run-time
 // switch is turned on; a call that has to grow the table must then throw std::invalid_argument and leave the table exactly as it
 // was (keys, capacity, bucket count, version); calls that need no growth and all calls after the switch is off must succeed.
 static bool g_shiftZero = false;                 // GetBucketCountShift answers 0
@@ -804,7 +806,7 @@ static void runGrowthChecks(Ctx& c, const std::string& cfg0) {
 		}
 		for (size_t lim : { t.GetCount(), t.GetCount() / 2, (size_t)0 }) {
 			g_capLimit = true; g_capLimitValue = lim;
-			rejectAll(fmt("CalcCapacity <= %zu", lim), "hash traits answer a new capacity <= count (HashSet.h:1135)", false);
+			rejectAll(fmt("CalcCapacity <= %zu", lim), "hash traits answer a capacity <= count that does not grow with the bucket count (HashSet.h:1140)", false);
 			g_capLimit = false;
 		}
 		// switches off: the position made before the refused calls is still the position of `fresh`
